@@ -396,14 +396,14 @@ func c08(r *vc.Run) int {
 		os.RemoveAll(dir)
 	})
 	cov := map[string]any{
-		"hq_mode_runs":                     hqRuns,
-		"hq_unseen_answers_checked":        hqChecked,
-		"evaluations":         m.Evaluations,
-		"distinct_nontrivial": len(m.Distinct),
-		"rule":                "one evaluation = one history of 30-50 seeds (pages with 1-6 assets from a pool of 10 URLs in 8 spellings, nested JSON assets, redirects, pool URLs reused as seeds) through the real preprocessor stage with the real LevelDB seencheck, sequential or with 4-8 seeds in flight; distinct = distinct (item type, situation in {first-sight, must-skip, promotion, concurrent-duplicate}, spelling) classes observed",
-		"samples":             m.Samples,
-		"events":              m.Events,
-		"classes":             m.Distinct,
+		"hq_mode_runs":              hqRuns,
+		"hq_unseen_answers_checked": hqChecked,
+		"evaluations":               m.Evaluations,
+		"distinct_nontrivial":       len(m.Distinct),
+		"rule":                      "one evaluation = one history of 30-50 seeds (pages with 1-6 assets from a pool of 10 URLs in 8 spellings, nested JSON assets, redirects, pool URLs reused as seeds) through the real preprocessor stage with the real LevelDB seencheck, sequential or with 4-8 seeds in flight; distinct = distinct (item type, situation in {first-sight, must-skip, promotion, concurrent-duplicate}, spelling) classes observed",
+		"samples":                   m.Samples,
+		"events":                    m.Events,
+		"classes":                   m.Distinct,
 	}
 	if cov["samples"] == nil {
 		cov["samples"] = []any{}
